@@ -7,9 +7,10 @@
      powers, the Frobenius maps with their constants).  A field element is the integer held
      by the C code *with the Montgomery factor removed*; the C code keeps x*2^256 mod p, and
      every operation used here commutes with that bijection (see DESIGN 4/C17).  The one
-     representation effect that is kept is the non-canonical zero: sm9_z256_modp_neg(0) and
-     sm9_z256_modp_sub(p,0) return p, which sm9_z256_is_zero does not recognise.  So Impl
-     values range over [0,p], and [fis_zero] is the bitwise test of the C code.
+     representation effect that is kept is the non-canonical zero p, which sm9_z256_is_zero
+     (a bitwise test, [fis_zero]) does not recognise: the operations are defined on [0,p], they
+     map [0,p) into [0,p) (TowerProofs/C17Lemmas), and only sm9_z256_modp_sub(p,0) can
+     reproduce p.  Before c2dbe37 sm9_z256_modp_neg(0) returned p ([fneg_old]).
    * Spec (prefix S2 / S4 / S12): the quotient rings over Z with exact integer coefficients:
      schoolbook polynomial product followed by the reduction u^2=-2, v^2=u, w^3=v.
      Reduction modulo p is applied componentwise by [canon*].
@@ -29,8 +30,10 @@ Definition inv2 : Z := 0x5b2000000151d378eb01d5a7fac763a290f949a58d3d776df2b7cd9
 Definition fadd (x y : Z) : Z := let s := x + y in if p <=? s then s - p else s.
 (* sm9_z256_modp_sub: add p back on borrow *)
 Definition fsub (x y : Z) : Z := if x <? y then x - y + p else x - y.
-(* sm9_z256_modp_neg: p - a, NOT reduced: neg 0 = p *)
-Definition fneg (x : Z) : Z := p - x.
+(* sm9_z256_modp_neg (since c2dbe37): p - a, then one conditional subtraction, so neg 0 = 0 *)
+Definition fneg (x : Z) : Z := let r := p - x in if p <=? r then r - p else r.
+(* the formula before c2dbe37 (p - a, not reduced: neg 0 = p); kept for the named Examples only *)
+Definition fneg_old (x : Z) : Z := p - x.
 Definition fdbl (x : Z) : Z := fadd x x.
 Definition ftri (x : Z) : Z := fadd (fadd x x) x.
 (* sm9_z256_modp_haf: (a + (a odd ? p : 0)) >> 1 on 257 bits *)
